@@ -223,6 +223,8 @@ struct Gen<'a> {
     n_live: u32,
     /// bias senders and admins towards account 0 (successful admin operations)
     admin_bias: bool,
+    /// the account admin operations are biased to (0, or a plain-named one)
+    admin_acct: u32,
     nodes_left: u32,
     uniq: u32,
     /// keys written recently (reads, removes and queries are biased towards them: read-after-write,
@@ -272,7 +274,7 @@ impl<'a> Gen<'a> {
     fn target_any(&mut self) -> Target {
         let r = self.rng.below(100);
         if self.admin_bias && r < 30 {
-            Target::Account(0)
+            Target::Account(self.admin_acct)
         } else if r < 40 {
             Target::Account(self.rng.below(self.n_accounts as u64) as u32)
         } else if r < 75 && self.n_slots > 0 {
@@ -622,7 +624,7 @@ impl<'a> Gen<'a> {
 
     fn op(&mut self) -> Op {
         let w = [self.p.w_exec, self.p.w_multi, self.p.w_sudo, self.p.w_mint, self.p.w_helper, self.p.w_store, self.p.w_block, self.p.w_external, self.p.w_queries];
-        let sender = if self.admin_bias && self.rng.chance(1, 2) { 0 } else { self.rng.below(self.n_accounts as u64) as u32 };
+        let sender = if self.admin_bias && self.rng.chance(1, 2) { self.admin_acct } else { self.rng.below(self.n_accounts as u64) as u32 };
         match self.rng.weighted(&w) {
             0 => {
                 let msg = self.top_msg();
@@ -747,7 +749,11 @@ fn gen_case(rng: &mut Rng, cfg: &Cfg) -> Case {
     let unbonding_secs = *rng.pick(&[1u64, 60, 60, 3600]);
     let nops = 3 + rng.usize(p.ops);
     let admin_bias = cfg.property == "C12" || rng.chance(1, 4);
-    let mut g = Gen { rng, p, nid: 0, n_accounts, n_denoms, n_validators, n_codes: 0, n_slots: 0, n_live: 0, admin_bias, nodes_left: 0, uniq: 0, recent: vec![] };
+    let plain_accounts = if rng.chance(1, if cfg.property == "C12" || cfg.property == "C05" { 3 } else { 6 }) { 1 + rng.below(2) as u8 } else { 0 };
+    let plain_accounts = plain_accounts.min(n_accounts.saturating_sub(1) as u8);
+    // the favourite admin: account 0, or (half of the runs that have one) the plain-named "owner"
+    let admin_acct = if plain_accounts > 0 && rng.chance(1, 2) { n_accounts - 1 } else { 0 };
+    let mut g = Gen { rng, p, nid: 0, n_accounts, n_denoms, n_validators, n_codes: 0, n_slots: 0, n_live: 0, admin_bias, admin_acct, nodes_left: 0, uniq: 0, recent: vec![] };
     let mut ops = vec![];
     // setup prefix: codes and a few contracts (at least two from the same code)
     let ncodes = 2 + g.rng.below(3);
@@ -780,7 +786,7 @@ fn gen_case(rng: &mut Rng, cfg: &Cfg) -> Case {
             1 if i > 0 => Some(Target::Contract(0)),
             // its own admin
             4 => Some(Target::Contract(slot)),
-            _ => Some(if g.admin_bias { Target::Account(0) } else { Target::Account(g.rng.below(n_accounts as u64) as u32) }),
+            _ => Some(if g.admin_bias { Target::Account(g.admin_acct) } else { Target::Account(g.rng.below(n_accounts as u64) as u32) }),
         };
         let funds = if g.rng.chance(1, 2) { vec![CoinSpec { denom: 0, amt: Amt::Abs(g.rng.range(1, 40)) }] } else { vec![] };
         ops.push(Op::HInstantiate { sender: g.rng.below(n_accounts as u64) as u32, code, slot, node, funds, label: format!("c{}", slot), admin, salt: None });
@@ -807,7 +813,7 @@ fn gen_case(rng: &mut Rng, cfg: &Cfg) -> Case {
     }
     let adv_rate = if cfg.property == "C08" || cfg.property == "C11" { 4 } else { 12 };
     let adv_addr = g.rng.chance(1, adv_rate);
-    Case { prefix: g.rng.below(4) as u8, n_accounts, n_denoms, n_validators, init_balances, module_faults, unbonding_secs, module_cfg, adv_addr, creator_checksums: g.rng.chance(1, 5), ops }
+    Case { prefix: g.rng.below(4) as u8, n_accounts, n_denoms, n_validators, init_balances, module_faults, unbonding_secs, module_cfg, adv_addr, creator_checksums: g.rng.chance(1, 5), plain_accounts, ops }
 }
 
 // ------------------------------------------------------------------ minimisation
@@ -1093,6 +1099,11 @@ impl Engine for ChainSim {
         if case.creator_checksums {
             let mut c = case.clone();
             c.creator_checksums = false;
+            out.push(c);
+        }
+        if case.plain_accounts > 0 {
+            let mut c = case.clone();
+            c.plain_accounts -= 1;
             out.push(c);
         }
         if case.adv_addr {
